@@ -289,7 +289,11 @@ class OracleResult:
             self.samples.append(sample)
 
     def fail(self, key, desc, replay):
-        if len(self.failures) < 200:
+        # at most 200 failing inputs are kept, and at most 12 per key: a flood of one kind (a known finding met thousands of
+        # times in an escalated sweep) must not crowd out a failing input of another kind found later
+        self._perkey = getattr(self, '_perkey', {})
+        self._perkey[key] = self._perkey.get(key, 0) + 1
+        if len(self.failures) < 200 and self._perkey[key] <= 12:
             self.failures.append(Failure(key, desc, replay))
 
     def count(self, k, n=1):
